@@ -2,7 +2,10 @@ package main
 
 import (
 	"bufio"
+	"bytes"
 	"fmt"
+
+	lz4 "github.com/pierrec/lz4/v4"
 )
 
 func init() {
@@ -377,6 +380,21 @@ func emitCmp(w *bufio.Writer, r *Rng, src []byte, dl int) {
 
 func boundOf(n int) int { return n + n/255 + 16 }
 
+// pickDlFor: as pickDl, but one time in five relative to the size the block really takes
+func pickDlFor(r *Rng, src []byte) int {
+	if r.Intn(5) == 0 && len(src) > 0 {
+		probe := make([]byte, boundOf(len(src)))
+		n0, _ := lz4.CompressBlock(src, probe, nil)
+		if r.Bool() {
+			n0, _ = lz4.CompressBlockHC(src, probe, lz4.Level3, nil, nil)
+		}
+		if d := n0 - r.Pick([]int{0, 1, 1, 2, 3, 5, 9, 17, -1}); d >= 0 {
+			return d
+		}
+	}
+	return pickDl(r, len(src))
+}
+
 func pickDl(r *Rng, n int) int {
 	b := boundOf(n)
 	switch r.Intn(6) {
@@ -421,7 +439,7 @@ func genCmp(w *bufio.Writer, thorough bool, r *Rng) {
 	}
 	for i := 0; i < cnt; i++ {
 		src := genSource(r, maxLen)
-		emitCmp(w, r, src, pickDl(r, len(src)))
+		emitCmp(w, r, src, pickDlFor(r, src))
 	}
 	// window edge: a chunk of early noise repeated at distance exactly 65535 / 65536 / 65537 (one
 	// below, at and beyond the largest offset), every alignment, with a long match in between so that
@@ -455,6 +473,92 @@ func genCmp(w *bufio.Writer, thorough bool, r *Rng) {
 			fmt.Fprintf(w, "CF %s %d %s\n", []string{"obj", "pkg"}[i%2], boundOf(len(src)), hx(src))
 			fmt.Fprintf(w, "CH obj %d %d %s\n", r.Pick([]int{1, 4, 512}), boundOf(len(src)), hx(src))
 		}
+	}
+	// length-code boundaries: literal runs and matches of exactly 15+255k / 19+255k bytes and their
+	// neighbours, as trailing literals, as literals before a match, and as match lengths
+	step := 3
+	if thorough {
+		step = 1
+	}
+	both := func(src []byte, dl int) {
+		fmt.Fprintf(w, "CF %s %d %s\n", []string{"obj", "pkg"}[r.Intn(2)], dl, hx(src))
+		fmt.Fprintf(w, "CH %s %d %d %s\n", []string{"obj", "pkg"}[r.Intn(2)], r.Pick([]int{1, 4, 512, 2048}), dl, hx(src))
+	}
+	for _, base := range []int{270, 525} {
+		for d := -20; d <= 20; d += 1 {
+			if d%step != 0 && d < -2 || d%step != 0 && d > 6 {
+				continue
+			}
+			L := base + d
+			// (a) compressible head, then L bytes without repeats
+			head := bytes.Repeat([]byte{byte('a' + r.Intn(20))}, 40+r.Intn(40))
+			a := append(append([]byte{}, head...), r.Bytes(L)...)
+			both(a, boundOf(len(a)))
+			// (b) a repeat of exactly L+4 bytes (match length code L+4-19 ...)
+			blk := r.Bytes(L + 4)
+			bsrc := append(append(append([]byte{}, blk...), r.Bytes(9)...), blk...)
+			bsrc = append(bsrc, r.Bytes(14+r.Intn(8))...)
+			both(bsrc, boundOf(len(bsrc)))
+			// (c) L literals, then a repeat of the first 40 of them
+			c := r.Bytes(L)
+			c = append(c, c[:40]...)
+			c = append(c, r.Bytes(13+r.Intn(6))...)
+			both(c, boundOf(len(c)))
+		}
+	}
+	// every destination length around the size the block really takes (the compressor under test is
+	// asked for that size): sources with long matches, so that length bytes fall on the boundary
+	sweep := 6
+	if thorough {
+		sweep = 60
+	}
+	for i := 0; i < sweep; i++ {
+		var src []byte
+		switch i % 3 {
+		case 0:
+			src = append(r.Bytes(20+r.Intn(30)), bytes.Repeat([]byte{byte(r.Intn(256))}, 300+r.Intn(1500))...)
+			src = append(src, r.Bytes(20)...)
+		case 1:
+			blk := r.Bytes(300 + r.Intn(600))
+			src = append(append(append([]byte{}, blk...), r.Bytes(5)...), blk...)
+			src = append(src, r.Bytes(30)...)
+		default:
+			src = genSource(r, 2500)
+		}
+		probe := make([]byte, boundOf(len(src)))
+		hc := i%2 == 1
+		var n0 int
+		if hc {
+			n0, _ = lz4.CompressBlockHC(src, probe, lz4.Level4, nil, nil)
+		} else {
+			n0, _ = lz4.CompressBlock(src, probe, nil)
+		}
+		lo := n0 - 45
+		if lo < 0 {
+			lo = 0
+		}
+		for dl := lo; dl <= n0+2; dl++ {
+			if hc {
+				fmt.Fprintf(w, "CH obj %d %d %s\n", 2048, dl, hx(src))
+			} else {
+				fmt.Fprintf(w, "CF obj %d %s\n", dl, hx(src))
+			}
+		}
+	}
+	// a long incompressible stretch, then a short repeat of earlier data close to the end: the output so
+	// far is already longer than the input when the match is coded
+	late := 4
+	if thorough {
+		late = 40
+	}
+	for i := 0; i < late; i++ {
+		N := r.Pick([]int{60000, 60200, 70000, 131000, 200000}) + r.Intn(300)
+		src := r.Bytes(N)
+		rep := 19 + r.Intn(180)
+		from := N - 100 - r.Intn(30000)
+		src = append(src, src[from:from+rep]...)
+		src = append(src, r.Bytes(12+r.Intn(25))...)
+		both(src, boundOf(len(src)))
 	}
 	// around the 64 KiB window and 16-bit table positions
 	for i := 0; i < big; i++ {
